@@ -256,6 +256,9 @@ class Stream:
 
     def _update_attributes(self) -> None:
         """Calculates key stream attributes based on temperatures."""
+        # the resistance follows the film coefficient even while the stream has no temperatures yet
+        if isinstance(self._htc, float | int) and self._htc != 0.0:
+            self._htr = 1 / self._htc
         if self._t_supply is None or self._t_target is None or self._htc is None:
             return
 
